@@ -136,12 +136,14 @@ def got_class(v):
 def feature_class(feats, exc=None):
     if exc == 'KeyError' and 'lower-error' in feats:
         return 'lower-error'
-    for f in ('quoted-sheet-then-book', 'nl-string', 'lower-error'):
-        if f in feats:
-            return f
+    # sign runs first: they are the open findings F1/F2; the three spelling features below were findings
+    # F31, F3, F-C01-5, now repaired, and must not mask (or be blamed for) a sign-run disagreement
     runs = sorted(f[4:] for f in feats if f in ('run:bin-un', 'run:un-un'))
     if runs:
         return 'run:' + '+'.join(runs)
+    for f in ('quoted-sheet-then-book', 'nl-string', 'lower-error'):
+        if f in feats:
+            return f
     return 'plain'
 
 
